@@ -1,7 +1,7 @@
 (** C08 — proofs about the machine of Conc/Machine.v. All statements quantify over every schedule
     (a list of thread ids of any length) and are proved by induction over it. *)
 From Coq Require Import List ZArith Bool Arith Lia.
-From Verif Require Import Conc.Machine Conc.Select Conc.Capture.
+From Verif Require Import Conc.Machine Conc.Select Conc.Capture Conc.Closure.
 From Verif Require Import gen.Captured_gen.
 Import ListNotations.
 
@@ -1015,3 +1015,59 @@ Qed.
 
 Lemma table_inhabited : captured_readonly [] = true /\ variant_of [] = PerExec.
 Proof. split; reflexivity. Qed.
+
+(* ------------------------------------------------------------------ *)
+(** * The frame slot of a function literal (Conc/Closure.v) *)
+
+Lemma lit_step_nowb_inv st t :
+  ops_ok (slot st) (mainops st) -> calls_ok (calls st) ->
+  ops_ok (slot (lit_step false st t)) (mainops (lit_step false st t))
+  /\ calls_ok (calls (lit_step false st t)).
+Proof.
+  intros Ho Hc. destruct t as [|j]; cbn [lit_step].
+  - destruct (mainops st) as [|[j|j] r] eqn:E; cbn [slot mainops calls]; auto.
+    + rewrite E. auto.
+    + cbn [ops_ok] in Ho. destruct Ho as [Hs Hr]. split; auto.
+      intros j' c Hin. apply in_app_or in Hin as [Hin|[Hin|[]]]; auto.
+      inversion Hin; subst. exact Hs.
+  - destruct (called_by st j) as [[c|]|]; auto.
+    destruct (existsb (Nat.eqb j) (ended st)); auto.
+Qed.
+
+(** without the write-back: under every schedule, every go statement calls the closure of its own iteration *)
+Theorem getfunc_no_writeback_full sched : forall st,
+  ops_ok (slot st) (mainops st) -> calls_ok (calls st) -> calls_ok (calls (lit_run false sched st)).
+Proof.
+  unfold lit_run. induction sched as [|t r IH]; intros st Ho Hc; simpl; auto.
+  destruct (lit_step_nowb_inv st t Ho Hc) as [Ho1 Hc1]. auto.
+Qed.
+
+Lemma lit_prog_ok sl from n : ops_ok sl (lit_prog from n).
+Proof.
+  unfold lit_prog. revert sl from. induction n as [|n IH]; intros sl from; simpl; auto.
+Qed.
+
+Corollary getfunc_no_writeback_loop n sched : calls_ok (calls (lit_run false sched (lit_init n))).
+Proof.
+  apply getfunc_no_writeback_full; simpl; [apply lit_prog_ok|]. intros j c [].
+Qed.
+
+(** with the write-back (the code today): a nil function is called / a stale closure is called *)
+Lemma getfunc_writeback_refuted :
+  (* iteration 0 complete; literal evaluated for iteration 1; goroutine 0 ends (writes back the zero Value);
+     the go statement of iteration 1 calls a nil function *)
+  calls (lit_run true [0; 0; 0; 1; 0] (lit_init 2)) = [(0, Some 0); (1, None)]
+  (* iterations 0 and 1 complete; literal evaluated for iteration 2; goroutine 1 ends (writes back closure 0);
+     the go statement of iteration 2 calls the closure of iteration 0 *)
+  /\ calls (lit_run true [0; 0; 0; 0; 0; 2; 0] (lit_init 3)) = [(0, Some 0); (1, Some 1); (2, Some 0)]
+  (* the same schedules without the write-back *)
+  /\ calls (lit_run false [0; 0; 0; 1; 0] (lit_init 2)) = [(0, Some 0); (1, Some 1)]
+  /\ calls (lit_run false [0; 0; 0; 0; 0; 2; 0] (lit_init 3)) = [(0, Some 0); (1, Some 1); (2, Some 2)].
+Proof. vm_compute. repeat split; reflexivity. Qed.
+
+Lemma getfunc_writeback_not_ok : ~ (forall n sched, calls_ok (calls (lit_run true sched (lit_init n)))).
+Proof.
+  intros H. specialize (H 2 [0; 0; 0; 1; 0] 1 None).
+  destruct getfunc_writeback_refuted as (E & _). rewrite E in H.
+  assert (C : None = Some 1) by (apply H; simpl; auto). discriminate C.
+Qed.
